@@ -35,7 +35,8 @@ CFG = dict(
           "pre-filled sequentially to 232..256 list slots (10%: exactly 256, 5%: 150..249) so that the 257th Add - the migration - happens "
           "once per round under contention; 4-16 writer goroutines with their own ranges (add / remove / re-add / duplicates / absent removals, host bits set, a few "
           "invalid arguments), in 30% of the rounds one more writer toggling 0.0.0.0/0, 4-8 reader goroutines probing stable ranges "
-          "(must be true), never-covered addresses (must be false while /0 is certainly off) and ranges in churn bracketed by the owner's "
+          "(must be true), never-covered addresses incl. the outside neighbours of stable ranges (must be false while /0 is certainly off), every probe while /0 is "
+          "certainly on per the toggler's epoch word (must be true) and ranges in churn bracketed by the owner's "
           "published epoch/state word (present throughout -> true, absent throughout -> false), in 4- and 16-byte form; after the churn "
           "one history line (pre-fill, then each writer's calls in program order, then probes of every owned range and a sample of "
           "stable ones) judged by the extracted Coq function. Schedules come from the Go scheduler only (stress, -race): partial for the "
@@ -54,7 +55,8 @@ CFG = dict(
 )
 CFG["manifest"] = dict(
     text=("Proof: an interleaving semantics over the sequential model (labels: RejectArg, StoreMatchAll, LockedAdd, LockedRemove, LoadMatchAll, "
-          "LockedScan) with the linearised update history as ghost state. C12_lookup_sound: for every execution and every Contains call, a range "
+          "LockedScan) with the linearised update history as ghost state; a panic inside an atomic section sets the crashed flag. C12_no_crash: no execution "
+          "reaches a crashed state (no section panics). C12_lookup_sound: for every execution and every Contains call, a range "
           "(0.0.0.0/0 or a prefix) live at every state during the call that contains the probe forces true, and no live range containing it at "
           "any state during the call forces false. C12_quiescent: when all threads have finished the filter answers as the set obtained by applying "
           "each thread's updates in program order, thread after thread, for threads owning disjoint ranges (via C11's refinement relation kept as an "
